@@ -10,7 +10,7 @@ JOBS = [
     (CH + ".send_continue", "IO"), (CH + ".send_continue", "W"),
     (CH + ".handle_write", "IO"), (CH + ".handle_close", "IO"),
     (CH + ".readable", "IO"), (CH + ".writable", "IO"),
-    (CH + ".service", "W"), (CH + ".received", "IO"), (CH + ".__init__", "IO"),
+    (CH + ".service", "W"), (CH + ".received", "IO"), (CH + ".__init__", "IO"), (CH + ".del_channel", "IO"),
     # socket-facing layer: the real wasyncore.dispatcher.send / recv bodies over a demonic kernel socket, and the read handler
     ("wasyncore.dispatcher.send", "IOL"), ("wasyncore.dispatcher.send", "W"), ("wasyncore.dispatcher.recv", "IO"), (CH + ".handle_read", "IO"),
 ]
